@@ -93,10 +93,9 @@ def load_known():
     return json.loads(p.read_text())["findings"]
 
 
-def run_property(prop, rules, doc, tier, explain=False, replay_key=None):
-    """rules: list of (rule_id, text, function(ctx)). Returns exit code."""
-    t0 = time.time()
-    repo = Repo()
+def evaluate(prop, rules, tier, root=None, explain=False):
+    """Run every rule of a property on the tree at `root` (default: SNT_REPO or /repo)."""
+    repo = Repo(root)
     ctx = Ctx(prop, repo, tier)
     for rid, text, fn in rules:
         ctx.current_rule = rid
@@ -114,6 +113,52 @@ def run_property(prop, rules, doc, tier, explain=False, replay_key=None):
                 print(tb)
         if len(ctx.instances) == n0:
             ctx.unrecognised("-", "-", "no-instances", "rule produced no instance (vacuous)", rid)
+    return ctx
+
+
+def selftest(prop, rules, baseline_keys):
+    """Thorough tier: both-ways test of the rule set on scratch copies of the current tree.
+    Seeded changes (seeded/<prop>-*) must make some rule report a violation that the unchanged tree does
+    not have; behaviour-preserving twins (twins/<prop>-*) must not. Recorded in the evidence; it never
+    changes the verdict on the property."""
+    import shutil
+    import subprocess
+    import tempfile
+    out = {"seeded": [], "twins": []}
+    src_root = Path(os.environ.get("SNT_REPO", "/repo"))
+    for kind, folder in (("seeded", VERIF / "seeded"), ("twins", VERIF / "twins")):
+        if not folder.is_dir():
+            continue
+        for d in sorted(folder.iterdir()):
+            if not d.name.startswith(prop + "-") or not (d / "patch.diff").is_file():
+                continue
+            tmp = tempfile.mkdtemp(prefix="snt_selftest_")
+            try:
+                for sub in ("src", "docs"):
+                    if (src_root / sub).is_dir():
+                        shutil.copytree(src_root / sub, Path(tmp) / sub)
+                r = subprocess.run(["patch", "-p1", "-s", "-d", tmp, "-i", str(d / "patch.diff")], capture_output=True, text=True)
+                if r.returncode != 0:
+                    out[kind].append({"variant": d.name, "status": "skipped: patch does not apply to the current tree"})
+                    continue
+                c = evaluate(prop, rules, "quick", root=tmp)
+                newv = sorted({i.key for i in c.instances if i.verdict == VIOLATED} - baseline_keys)
+                unrec = [i.key for i in c.instances if i.verdict == UNRECOGNISED]
+                if kind == "seeded":
+                    status = "fired" if newv else ("unrecognised" if unrec else "MISSED")
+                else:
+                    status = "silent" if not newv and not unrec else ("unrecognised" if not newv else "FALSE-ALARM")
+                out[kind].append({"variant": d.name, "status": status, "violations": newv[:3], "unrecognised": unrec[:3]})
+            finally:
+                shutil.rmtree(tmp, ignore_errors=True)
+    return out
+
+
+def run_property(prop, rules, doc, tier, explain=False, replay_key=None):
+    """rules: list of (rule_id, text, function(ctx)). Returns exit code."""
+    t0 = time.time()
+    ctx = evaluate(prop, rules, tier, explain=explain)
+    repo = ctx.repo
 
     known = [k for k in load_known() if k["property"] == prop]
     known_keys = {k["key"]: k for k in known if k.get("status") == "known"}
@@ -200,6 +245,7 @@ def run_property(prop, rules, doc, tier, explain=False, replay_key=None):
             "known_findings_matched": [i.key for i in known_hit],
             "exhaustive": False,
             **ctx.info,
+            **({"selftest": selftest(prop, rules, {i.key for i in viol})} if tier == "thorough" and replay_key is None else {}),
         },
         "assumptions": [
             "verdicts are about the structural clauses listed in DESIGN.md for this property, not the runtime behaviour as a whole",
